@@ -149,8 +149,14 @@ def check_with_hard_limit(solver, n_assertions, timeout_s, stats=None):
     try:
         with os.fdopen(fd, 'w') as f:
             f.write(smt)
+        # the limit is CPU time of the child (RLIMIT_CPU), so that a loaded machine does not turn a provable VC into 'unknown';
+        # the wall-clock limits are a generous backstop only
+        def _limit():
+            import resource
+            resource.setrlimit(resource.RLIMIT_CPU, (int(timeout_s) + 2, int(timeout_s) + 5))
         try:
-            p = subprocess.run([Z3_BIN, f'-T:{int(timeout_s)}', path], capture_output=True, text=True, timeout=timeout_s + 15)
+            p = subprocess.run([Z3_BIN, f'-T:{int(4 * timeout_s)}', path], capture_output=True, text=True, timeout=4 * timeout_s + 15,
+                               preexec_fn=_limit)
         except subprocess.TimeoutExpired:
             return 'unknown'
         out = p.stdout.strip()
@@ -169,7 +175,7 @@ def check_with_hard_limit(solver, n_assertions, timeout_s, stats=None):
 
 def _saturate(hyps, seeds, rounds, maxdeg, max_products):
     """goal-directed multiplier products; returns list of product polynomials"""
-    t_start = time.time()
+    t_start = time.process_time()
     prods = []
     seen = set()
     hinfo = []
@@ -199,7 +205,7 @@ def _saturate(hyps, seeds, rounds, maxdeg, max_products):
                     for mm in p:
                         if mm not in target:
                             new.add(mm)
-                    if len(prods) >= max_products or (len(prods) % 512 == 0 and time.time() - t_start > BUILD_BUDGET_S):
+                    if len(prods) >= max_products or (len(prods) % 512 == 0 and time.process_time() - t_start > BUILD_BUDGET_S):
                         return prods, True
         target |= new
         frontier = new
